@@ -14,3 +14,60 @@ s = open(p).read()
 s = re.sub(r"(<!-- NUMBERS:BEGIN -->\n).*?(\n<!-- NUMBERS:END -->)", lambda m: m.group(1) + table + m.group(2), s, flags=re.S)
 open(p, "w").write(s)
 print(table)
+
+# --- the "B" (budget) item of every per-property entry: budgets from checks.json, counts from the
+# committed quick evidence
+cfg = json.load(open(os.path.join(ROOT, "checks.json")))
+
+
+def fmt(n):
+    return str(n)
+
+
+def budget(pid):
+    parts = []
+    for j in cfg[pid]["jobs"]:
+        name = j.get("check") or j.get("fuzz")
+        q, t = j.get("quick"), j.get("thorough")
+        if j.get("fuzz"):
+            parts.append("%s (native fuzzing, thorough only, %s)" % (name, t.get("fuzztime")))
+            continue
+        qs = "%d×%s" % (q["shards"], fmt(q["checks"])) if q else "—"
+        ts = "%d×%s" % (t["shards"], fmt(t["checks"])) if t else "—"
+        parts.append("%s %s → %s" % (name, qs, ts))
+    ev = os.path.join(ROOT, "evidence", pid + ".json")
+    tail = ""
+    if os.path.exists(ev):
+        d = json.load(open(ev))
+        c = d["coverage"]
+        tail = "; committed %s run (seed %d): %s evaluations, %s distinct non-trivial (classes: `evidence/%s.json`)" % (
+            d["tier"], d["seed"], fmt(c["evaluations"]), fmt(c["distinct_nontrivial"]), pid)
+    return "* **B** shards×cases quick → thorough: " + ", ".join(parts) + tail + "."
+
+
+s = open(p).read()
+out, cur, skipping = [], None, False
+for line in s.split("\n"):
+    m = re.match(r"### (C\d\d) ", line)
+    if line.startswith("### ") or line.startswith("## "):
+        cur = m.group(1) if m else None
+    if skipping:
+        if line.startswith("* **") or line.startswith("#") or line.strip() == "":
+            skipping = False
+        else:
+            continue
+    if cur and line.startswith("* **B** "):
+        text = budget(cur)
+        # wrap at 98 columns
+        words, cl = text.split(" "), ""
+        for w in words:
+            if len(cl) + len(w) + 1 > 98:
+                out.append(cl)
+                cl = "  " + w
+            else:
+                cl = (cl + " " + w) if cl else w
+        out.append(cl)
+        skipping = True
+        continue
+    out.append(line)
+open(p, "w").write("\n".join(out))
